@@ -20,7 +20,7 @@ from ..facts import AnalysisError
 from .. import api
 
 TARGETS = ('--lib',)
-GOOD_SOURCES = ('L2Entry::allocation', 'L2Entry::compressed_range', 'Table::get_offset', 'try_alloc_from_rb_slice',
+GOOD_SOURCES = ('L2Entry::allocation', 'L2Entry::cluster_offset', 'L2Entry::compressed_range', 'Table::get_offset', 'try_alloc_from_rb_slice',
                 'alloc_and_map_cluster', 'allocate_cluster', 'allocate_clusters', 'cluster_count')
 
 
